@@ -16,6 +16,32 @@ TRUSTED = ("Trusted base: the stdlib ast parser; the resolver of gfaverif/model.
            "named structural clauses, not the behaviour as a whole.")
 
 CHECKS = {
+    "C01": dict(
+        technique="type-set agreement between sibling codec functions, "
+                  "decision tables of the registry / collection / writer "
+                  "functions by abstract interpretation, and syntax-tree "
+                  "checks of the reader and writer (static analysis)",
+        engine="CODEC+TABLE",
+        design_ref="DESIGN.md section 4, C01",
+        text="Partial. Decides the structural ways a valid line can be lost "
+             "or flagged: (a) for each of the 27 datatype modules every class "
+             "the reader (decode/unsafe_decode) can return is accepted by the "
+             "writer (encode) -- otherwise to_list swallows the TypeError and "
+             "writes '# INVALID'; (b) every datatype named anywhere has a "
+             "codec module; (c) Gfa.lines lists every stored record exactly "
+             "once for every version and storage kind (named, placeholder "
+             "name, external, unnamed, custom types, split header), and "
+             "_register_line / _unregister_line agree on the key; to_list "
+             "emits record type, every positional field and every tag, flags "
+             "(does not drop) a failing field; _split yields one H line per "
+             "stored value; (d) read_file strips exactly CR and LF, to_file "
+             "terminates with LF; (e) Gfa(str)/Gfa(list) hand every line to "
+             "add_line.",
+        note="Undecided: equality of the written values, tag order, number "
+             "spelling and the fixed point parse(write(parse(T))) on concrete "
+             "documents (value level; the integer subtype table that decides "
+             "the spelling of B arrays is checked under C20). Known finding: "
+             "scalar JSON values. " + TRUSTED),
     "C04": dict(
         technique="regular-language equivalence on automata built from the "
                   "validators' regular expressions with Python re semantics, "
@@ -149,6 +175,28 @@ CHECKS = {
              "order of a concrete document (the tables make each single "
              "decision right; their composition over arrival orders is not "
              "enumerated), the dialect (rGFA) cross-checks. " + TRUSTED),
+    "C19": dict(
+        technique="decision table of Cloning.clone over record class x field "
+                  "x stored value class (abstract interpretation), with the "
+                  "value classes inferred from the decoders (static analysis)",
+        engine="TABLE+CODEC",
+        design_ref="DESIGN.md section 4, C19",
+        text="Partial, strong on its clause. For every record class, every "
+             "positional field and predefined tag, every tag datatype of "
+             "custom tags, and every class of value a decoder or a library "
+             "setter can store there (184 cells), clone() puts into the copy a "
+             "value that is not the original object unless the class is "
+             "immutable, and always the string form for reference fields "
+             "(connected or not); the result is the newly constructed object "
+             "of the same class with the same vlevel/virtual/version, it "
+             "receives no _gfa/_refs and a copy of _datatype; __eq__ compares "
+             "record type, field names and, per field, values or written "
+             "forms of both sides (so identifiers equal live references). A "
+             "mutable value taking the 'share' action is state shared between "
+             "clone and original, hence necessary.",
+        note="Undecided: aliasing created after cloning, equality on concrete "
+             "values. The mutable/immutable classification of value classes "
+             "is in spec.py and trusted. " + TRUSTED),
     "C20": dict(
         technique="regular-language inclusion/equality (validator and "
                   "encoder-output automata), decision tables of the default "
